@@ -14,9 +14,9 @@ fine violation and carries on until the statement itself (Agreement / Validity
 Families and classes (DESIGN.md §5 C12) are implemented in simkit/c12_*.py:
 
   paxos     px-live (fault-free, bounded delay, one proposer: + liveness)
-            px-clean3 (n=3, one proposer, faults)         avoidance class
-            px-2of3 (n=3, one node down for good, 2-3 proposers, faults)   avoidance class
-            px-nofault / px-faulty (3-5 nodes, 1-3 proposers)
+            px-nofault / px-faulty (3-5 nodes, 1-4 proposers, re-proposals)
+            (px-clean3 / px-2of3 were avoidance classes for the defects fixed in c100387 / 382ed9c;
+             folded back, names still accepted in replays)
   multi /   ml-live (fault-free, FIFO links, one starter: + liveness)
   flex      ml-single (one starter, reordering) / ml-single-faulty (FIFO links + faults)
             ml-multi-fifo (several starters, FIFO links, no loss) / ml-multi (several starters + faults)
@@ -35,13 +35,13 @@ from simkit import c12_multi as _multi  # noqa: E402
 from simkit import c12_misc as _misc  # noqa: E402
 
 PROPERTY = "C12"
-RUNS = {"quick": 8000, "thorough": 300_000}
+RUNS = {"quick": 10000, "thorough": 300_000}
 WALL = {"quick": 55, "thorough": 1500}
 BATCH = {"quick": 100, "thorough": 500}
 SELFTEST_RUNS = 10
 SHRINK_BUDGET_S = {"quick": 20.0, "thorough": 90.0}
 RULE = (
-    "each case is one generated scenario of one family: single-decree PaxosNode cluster (3-5 nodes, 1-3 proposers "
+    "each case is one generated scenario of one family: single-decree PaxosNode cluster (3-5 nodes, 1-4 proposers "
     "with unique values, optional same-value re-proposal, generated retry delay), MultiPaxosNode / FlexiblePaxosNode "
     "cluster (3-5 nodes, every intersecting (q1,q2) for Flexible, 1-3 nodes calling start() at generated instants, "
     "commands submitted to whichever node is leader or queued at a non-leader), LeaderElection cluster (Bully / Ring / "
@@ -94,7 +94,8 @@ EXPECTED_PROBES = [
     "probe.px_accepted_for_stale_ballot", "probe.px_future_resolved",
     "probe.ml_leader_change", "probe.ml_two_leaders_at_once", "probe.ml_accept_out_of_order", "probe.ml_truncate",
     "probe.ml_commit_via_heartbeat", "probe.ml_pending_assigned_on_takeover", "probe.ml_future_resolved",
-    "probe.ml_leader_deposed_by_own_heartbeat", "probe.flex_q2_below_majority",
+    "probe.ml_leader_kept_leading_after_own_tick", "probe.ml_command_after_first_tick_applied_everywhere",
+    "probe.flex_q2_below_majority", "probe.px_decided_on_retried_ballot", "probe.px_four_proposers",
     "probe.el_election_completed", "probe.el_heartbeat_adopted", "probe.el_terms_differ_for_one_leader",
     "probe.lock_expired", "probe.lock_waiter_woken", "probe.lock_reentrant", "probe.lock_stale_release_refused",
     "fault.partition", "fault.crash", "fault.pause", "fault.loss", "fault.restart",
